@@ -4,10 +4,10 @@
    model's find_edges; GFA text = record list, JSON text = token list (Algo/Json.v).  Algo/Serde.v = the layout
    of the serde derives.  TRUSTED (not modelled): serde_json's text layer, the derive macros, boomphf's own
    Serialize impls; the GFA text layer (tabs, decimal numbers) is read back by the harness's parser. *)
-From Coq Require Import NArith List Bool Arith String.
+From Coq Require Import NArith List Bool Arith String Lia.
 From DBG Require Import Gen.SourceConsts Spec.Dna Spec.GraphIndex Spec.ExportSpec Packed.DnaStringModel
   Algo.GraphModel Algo.Json Algo.Export Algo.Serde Check.ExportCheck
-  Proofs.JsonProofs Proofs.ExportJsonProofs Proofs.ExportGfaProofs Proofs.ExportProofs Proofs.ExportEdgesProofs Proofs.ExportCheckProofs
+  Proofs.JsonProofs Proofs.ExportJsonProofs Proofs.ExportGfaProofs Proofs.ExportProofs Proofs.ExportEdgesProofs Proofs.ExportOverlapProofs Proofs.ExportCheckProofs
   Proofs.ExportRefuted Proofs.SerdeProofs.
 Import ListNotations.
 Local Open Scope nat_scope.
@@ -32,6 +32,16 @@ Theorem C20_gfa_links_sound : forall (D : Type) (K : nat) (stranded : bool) (g :
   ov = K - 1 /\ exists es flip, find_edges D K stranded g u (out_side o1) = Some es /\ In (v, in_side o2, flip) es.
 Proof. exact gfa_links_sound. Qed.
 Print Assumptions C20_gfa_links_sound.
+
+(* ... and, read on the sequences: for a graph of well-formed sequences of at least K bases, the last K-1 bases of u
+   (reverse-complemented when o1 = -) ARE the first K-1 bases of v (reverse-complemented when o2 = -).
+   orient s o = if o then s else rc s;  lastn k s = skipn (|s| - k) s. *)
+Theorem C20_gfa_link_overlap : forall (K : nat), 1 <= K -> forall (D : Type) (stranded : bool) (g : graph D) u o1 v o2 ov,
+  graph_wf D K g -> In (u, o1, v, o2, ov) (gfa_links (write_gfa D K stranded g)) ->
+  ov = K - 1 /\ exists nu nv, nth_error g u = Some nu /\ nth_error g v = Some nv /\
+    lastn (K - 1) (orient (n_seq D nu) o1) = firstn (K - 1) (orient (n_seq D nv) o2).
+Proof. exact gfa_link_overlap. Qed.
+Print Assumptions C20_gfa_link_overlap.
 
 Theorem C20_gfa_tags_same_links : forall (D : Type) (K : nat) (stranded : bool) (g : graph D) f,
   gfa_links (to_gfa_with_tags D K stranded g f) = gfa_links (write_gfa D K stranded g).
@@ -178,6 +188,14 @@ Example C20_nonvacuous_hairpin :
 Proof.
   split; [|vm_compute; reflexivity].
   apply chk_tab_ok_sound. vm_compute. reflexivity.
+Qed.
+Example C20_nonvacuous_overlap :
+  graph_wf unit 5 f5_graph /\
+  lastn 4 (orient (n_seq unit (nth 0 f5_graph ([], 0%N, tt))) true) = [Proofs.ExportRefuted.C; T; A; G] /\
+  firstn 4 (orient (n_seq unit (nth 0 f5_graph ([], 0%N, tt))) false) = [Proofs.ExportRefuted.C; T; A; G].
+Proof.
+  split; [|split; vm_compute; reflexivity].
+  repeat constructor; cbn; lia.
 Qed.
 (* two nodes of which only the first has a right-going link: well formed, one link listed *)
 Example C20_nonvacuous_json :
